@@ -15,7 +15,7 @@ GRID = [(m, f) for m in ("default", "lsq", "lsq_linear") for f in ("dlite", "tau
 def specs_for(ctx):
     rng = random.Random(ctx.seed + 1)
     specs = []
-    n = ctx.pick(50, 1200)
+    n = ctx.pick(50, 500)
     for i in range(n):
         tissue = {"kind": "equilibrium", "ncells": rng.choice([6, 10, 16, 25] if ctx.quick else [6, 10, 16, 25, 40, 60]),
                   "mobius": rng.choice([0.0, 0.4, 0.9, 1.5])}
